@@ -875,6 +875,17 @@ class BlockChain(object):
         if not self.pinned:
             raise ValueError('Trying to fix unpinned block')
 
+        # Release the offsets of the blocks to place: a moved block may take the
+        # offset currently held by one of its neighbours
+        previous_offsets = {}
+        for index, block in enumerate(self.blocks):
+            if index == self.pinned_block_idx:
+                continue
+            loc_offset = self.loc_db.get_location_offset(block.loc_key)
+            previous_offsets[block.loc_key] = loc_offset
+            if loc_offset is not None:
+                self.loc_db.unset_location_offset(block.loc_key)
+
         # Propagate offset to blocks before pinned block
         pinned_block = self.blocks[self.pinned_block_idx]
         offset = self.loc_db.get_location_offset(pinned_block.loc_key)
@@ -902,6 +913,11 @@ class BlockChain(object):
                            modified_loc_keys)
             offset += block.size
             last_block = block
+
+        # Only report the blocks which have moved
+        for loc_key, loc_offset in viewitems(previous_offsets):
+            if self.loc_db.get_location_offset(loc_key) == loc_offset:
+                modified_loc_keys.discard(loc_key)
         return modified_loc_keys
 
 
